@@ -37,7 +37,7 @@ class C13(Check):
         "seeded small pipelines (3..6 patches, 4 catalogs of 60..250 objects, 2 angular scales, 2..4 redshift bins) run "
         "twice: original and transformed by {random SO(3) rotation, rotation taking a centre onto the pole, rotation "
         "moving the field across RA=0, row permutation of every input table, permutation of the centre list, weights of "
-        "one catalog x {1e-3, 7, 1e6}, two-way split of the reference sample}; CorrFunc.sample().data/.samples/.covariance "
+        "one catalog x {1e-12, 2e-10, 1e-3, 7, 1e6, 1e12}, two-way split of the reference sample}; CorrFunc.sample().data/.samples/.covariance "
         "and RedshiftData.from_corrfuncs are compared to 1e-9 of the largest entry (samples permuted with the patch "
         "labels; split: counts cell-wise additive). Cases with a pair within 1e-9 of a scale edge, a point within 1e-8 rad "
         "of a patch boundary or a redshift within 1e-9 of a bin edge are rejected and counted. "
@@ -117,10 +117,22 @@ class C13(Check):
         if any(near_edge(tables[a], tables[b]) for a, b in pairs_used):
             return [result(SKIPPED, cls="rejected-margin", nontrivial=False, counters=dict(rejected_margin=1))]
 
+        from_index = tr.startswith("rotation") and case["seed"] % 2 == 1
+
         def build(tmp, tag, tabs, cen):
             cobj = cats.coords_obj(cen)
             c = {}
+            if from_index:
+                # the largest catalog defines the patches through an index column (centres = mean
+                # directions computed by the library); the others take their centres from it
+                t = tabs["rr"]
+                ra, dec = gen.xyz_to_radec(t["xyz"])
+                pid, _ = cats.nearest_centre(t["xyz"], cen)
+                c["rr"] = cats.create(tmp / f"{tag}-rr", cats.table(ra, dec, w=t["w"], z=t["z"], patch=pid))
+                cobj = c["rr"]
             for k, t in tabs.items():
+                if k in c:
+                    continue
                 ra, dec = gen.xyz_to_radec(t["xyz"])
                 c[k] = cats.create(tmp / f"{tag}-{k}", cats.table(ra, dec, w=t["w"], z=t["z"]), centers=cobj)
             return c
@@ -157,7 +169,7 @@ class C13(Check):
             t_centres = centres[perm]
         elif tr == "weight_scale":
             which = str(rng.choice(["ref", "unk", "rr", "ur"]))
-            s = float(rng.choice([1e-3, 7.0, 1e6]))
+            s = float(rng.choice([1e-3, 7.0, 1e6, 2e-10, 1e-12, 1e12]))
             base = tables[which]["w"] if tables[which]["w"] is not None else np.ones(len(tables[which]["xyz"]))
             t_tables[which]["w"] = base * s
             if tables[which]["w"] is None:
